@@ -9,11 +9,13 @@ HERE = os.path.dirname(os.path.abspath(__file__))
 def one(p):
     r = subprocess.run([os.path.join(HERE, "try_patch.py"), p], stdout=subprocess.PIPE, stderr=subprocess.STDOUT, text=True)
     noisy = re.findall(r"^(C\d+) (CAUGHT|BROKEN)(.*)$", r.stdout, re.M)
+    if "PATCH DOES NOT APPLY" in r.stdout:
+        noisy = [("STALE", "patch no longer applies to /repo", "")]
     return os.path.basename(p), noisy, r.stdout
 pat = sys.argv[1] if len(sys.argv) > 1 else ""
 bad = 0
 with ThreadPoolExecutor(3) as ex:
-    for name, noisy, out in ex.map(one, sorted(p for p in glob.glob(os.path.join(HERE, "refactors", "*.diff")) if pat in p)):
+    for name, noisy, out in ex.map(one, sorted(p for p in glob.glob(os.path.join(HERE, "refactors", "*.diff")) if pat in p and ".before-" not in p)):
         print("%-7s %-22s %s" % ("NOISY" if noisy else "quiet", name, "; ".join("%s %s%s" % n for n in noisy)))
         if noisy:
             bad += 1
